@@ -68,7 +68,12 @@ Definition fresh_fixed (prefix : string) (g : gs) : option (ident * gs) :=
    only the names that were handed out unchanged. *)
 Definition fresh_coded (prefix : string) (g : gs) : option (ident * gs) :=
   if mem_id prefix (g_used g)
-  then Some ((id_base prefix ++ string_of_nat (g_ctr g))%string, mkGs (g_used g) (S (g_ctr g)))
+  then
+    let x1 := (id_base prefix ++ string_of_nat (g_ctr g))%string in
+    (* the one entry the stale-hash lookup can still match is the original name itself *)
+    if String.eqb x1 prefix
+    then Some ((id_base prefix ++ string_of_nat (S (g_ctr g)))%string, mkGs (g_used g) (S (S (g_ctr g))))
+    else Some (x1, mkGs (g_used g) (S (g_ctr g)))
   else Some (prefix, mkGs (prefix :: g_used g) (g_ctr g)).
 
 Definition gensym := string -> gs -> option (ident * gs).
@@ -195,13 +200,20 @@ Definition from_fpcore_fixed : cprog -> option func := from_fpcore fresh_fixed.
 
 (* ------------------------------------------------------------------ the cores the theorem speaks about *)
 (* a property dictionary that fixes the number format by itself *)
+Definition round_named (p : props) : bool :=
+  match p_round p with
+  | Some r => match rm_of_name r with Some _ => true | None => false end
+  | None => false
+  end.
+
 Definition pfull (p : props) : bool :=
   match p_prec p with
   | None => false
-  | Some (PSym s) => String.eqb s "real" || match p_round p with Some _ => true | None => false end
-  | Some (PFloat _ _) => match p_round p with Some _ => true | None => false end
-  | Some (PFixed _ _) =>
-      match p_round p, p_ovf p with Some _, Some _ => true | _, _ => false end
+  | Some (PSym s) =>
+      (String.eqb s "real" && match p_round p with None => true | Some _ => round_named p end)
+      || round_named p
+  | Some (PFloat _ _) => round_named p
+  | Some (PFixed _ _) => round_named p && match p_ovf p with Some _ => true | None => false end
   end.
 
 Definition is_int_props (p : props) : bool :=
